@@ -44,6 +44,18 @@ func (v *View) lastStoreAll(at ssa.Instruction, match func(*ssa.Store) bool, goo
 					s = bad
 				}
 			}
+			// a straight-line first-party helper that stores into its arguments
+			if c, isCall := i.(ssa.CallInstruction); isCall && v.virtMatch != nil {
+				for _, vs := range v.P.helperStores(c) {
+					if v.virtMatch(vs.key) {
+						if v.virtGood(vs.val) {
+							s = ok
+						} else {
+							s = bad
+						}
+					}
+				}
+			}
 		}
 		return s
 	}
@@ -239,6 +251,9 @@ func (a *unfoldAnalysis) loadUnfolded(ld *ssa.UnOp, allowNil bool) (bool, string
 // pathUnfoldedAt: at instruction `at`, the location with access path `key` holds an unfolded value.
 func (a *unfoldAnalysis) pathUnfoldedAt(at ssa.Instruction, key string, allowNil bool) (bool, string) {
 	v := a.p.View(at.Parent())
+	v.virtMatch = func(k string) bool { return k == key }
+	v.virtGood = func(val ssa.Value) bool { return val != nil && a.unfolded(val, allowNil) }
+	defer func() { v.virtMatch, v.virtGood = nil, nil }()
 	return v.lastStoreAll(at,
 		func(s *ssa.Store) bool { return accessPath(s.Addr) == key },
 		func(s *ssa.Store) bool { return a.unfolded(s.Val, allowNil) })
@@ -589,4 +604,57 @@ func runUnfoldComplete(p *Program, r *RuleResult) {
 		}
 	}
 	r.count("returns of unfolding functions", n)
+}
+
+// virtStore: a store performed by a straight-line first-party helper, expressed in the
+// caller's terms: key is the access path of the written location with the helper's
+// parameter replaced by the caller's argument; val is the caller's argument when the helper
+// stores one of its parameters, otherwise the helper's own value (nil if unknown).
+type virtStore struct {
+	key string
+	val ssa.Value
+	pos string
+}
+
+func (p *Program) helperStores(c ssa.CallInstruction) []virtStore {
+	h := c.Common().StaticCallee()
+	if h == nil || !p.isFirstParty(h) || h.Blocks == nil || len(h.Blocks) != 1 || c.Parent() == h {
+		return nil
+	}
+	if c.Parent().Pkg == nil || h.Pkg == nil || c.Parent().Pkg != h.Pkg {
+		return nil
+	}
+	args := c.Common().Args
+	if len(args) != len(h.Params) {
+		return nil
+	}
+	var out []virtStore
+	for _, in := range h.Blocks[0].Instrs {
+		st, ok := in.(*ssa.Store)
+		if !ok {
+			continue
+		}
+		ap := accessPath(st.Addr)
+		if ap == "" {
+			continue
+		}
+		for i, q := range h.Params {
+			if !strings.HasPrefix(ap, q.Name()+".") {
+				continue
+			}
+			root := accessPath(args[i])
+			if root == "" {
+				continue
+			}
+			vs := virtStore{key: root + strings.TrimPrefix(ap, q.Name()), pos: p.instrPos(c)}
+			vs.val = st.Val
+			for j, q2 := range h.Params {
+				if st.Val == ssa.Value(q2) {
+					vs.val = args[j]
+				}
+			}
+			out = append(out, vs)
+		}
+	}
+	return out
 }
